@@ -9,6 +9,7 @@ source side without re-parsing the workbook.
 from __future__ import annotations
 
 import random
+import re
 
 TEXT_TYPES = ["text", "string", "integer", "int", "decimal", "date", "time", "dateTime", "datetime",
               "geopoint", "gps", "geotrace", "geoshape", "barcode", "note"]
@@ -61,11 +62,15 @@ def decorate(shapes, seed=0, feat=frozenset()):
     rnd = random.Random(f"{seed}:{shapes}")
     f = Form()
     langs = LANGS if "lang" in feat and rnd.random() < 0.7 else []
+    # names may contain dots and hyphens (legal XML names; `${n3.a-b}` must still be found as a reference)
+    dotted = "dotted_names" in feat and rnd.random() < 0.3
     n = 1
     lists_used = set()
     for shape, given in shapes:
         n += 1
         name = given or f"n{n}"
+        if dotted and re.fullmatch(r"n\d+", name):
+            name = f"{name}.a-b"
         row = {}
         info = {"shape": shape, "name": None, "row": n, "path": None}
         if shape == "blank":
